@@ -93,6 +93,35 @@ Fast32(seedLE, bytes) ==
    LET r == Fold32(<<seedLE[4] * 256 + seedLE[3], seedLE[2] * 256 + seedLE[1]>>, bytes, 1, 4 * ((Len(bytes) + 3) \div 4))
    IN <<r[2] % 256, r[2] \div 256, r[1] % 256, r[1] \div 256>>
 
+\* ----- CRC-32 of messages of gigabytes that are zero except for a head and a tail: a run of n zero bytes multiplies the register by
+\* x^(8n) modulo the polynomial (StepB with byte 0 is multiplication by x^8), computed by square-and-multiply on the two halves.
+\* CrcMC.tla checks ZeroRun against Fold32 over explicit zero bytes.
+Shl1(hl) == LET top == hl[1] >= 32768
+                h == (hl[1] % 32768) * 2 + (hl[2] \div 32768)  lw == (hl[2] % 32768) * 2
+            IN IF top THEN <<h ^^ 1217, lw ^^ 7607>> ELSE <<h, lw>>           \* 0x04C1, 0x1DB7
+BitOf(hl, i) == IF i >= 16 THEN (hl[1] \div (2^(i - 16))) % 2 ELSE (hl[2] \div (2^i)) % 2    \* bit i (0 = least significant)
+RECURSIVE MulFrom(_, _, _, _)
+MulFrom(acc, a, b, i) ==            \* acc * x^(i+1) + a * (bits i..0 of b), modulo the polynomial
+   IF i < 0 THEN acc
+   ELSE LET sh == Shl1(acc)  nx == IF BitOf(b, i) = 1 THEN <<sh[1] ^^ a[1], sh[2] ^^ a[2]>> ELSE sh
+        IN IF nx[1] >= 0 THEN MulFrom(nx, a, b, i - 1) ELSE nx
+MulP(a, b) == MulFrom(<<0, 0>>, a, b, 31)
+RECURSIVE XPow(_)
+XPow(k) ==                          \* x^k modulo the polynomial, k < 2^31
+   IF k = 0 THEN <<0, 1>>
+   ELSE LET h == XPow(k \div 2)  sq == MulP(h, h) IN IF k % 2 = 1 THEN Shl1(sq) ELSE sq
+RECURSIVE PowP(_, _)
+PowP(a, k) == IF k = 0 THEN <<0, 1>> ELSE LET h == PowP(a, k \div 2)  sq == MulP(h, h) IN IF k % 2 = 1 THEN MulP(sq, a) ELSE sq
+\* register after nh * 65536 + nl zero bytes
+ZeroRun(hl, nh, nl) == MulP(MulP(hl, PowP(XPow(8 * 65536), nh)), XPow(8 * nl))
+\* head (a multiple of four bytes), then nzh * 65536 + nzl zero bytes (a multiple of four), then the tail (any length, zero-extended)
+Sparse32(seedLE, head, nzh, nzl, tail) ==
+   LET h0 == <<seedLE[4] * 256 + seedLE[3], seedLE[2] * 256 + seedLE[1]>>
+       h1 == Fold32(h0, head, 1, Len(head))
+       h2 == ZeroRun(h1, nzh, nzl)
+       r == Fold32(h2, tail, 1, 4 * ((Len(tail) + 3) \div 4))
+   IN <<r[2] % 256, r[2] \div 256, r[1] % 256, r[1] \div 256>>
+
 Def(fn, seedLE, bytes) ==
    CASE fn = "strm8"  -> <<Strm8(seedLE[1], bytes)>>
      [] fn = "dallas" -> <<Dallas(seedLE[1], bytes)>>
